@@ -48,6 +48,29 @@ def enc_tree(t, single, anomer=None, root_suffix=""):
         s += str(p) + ";" + enc_tree(k, single, an)
     return s
 
+def shape_twins(r, n):
+    """trees with two arms made of the same residues and the same linkages, one branched and one linear:
+    R[ X[A(3), B(4)] (3) , X[A(3)[B(4)]] (6) ] -- anything that summarises a subtree without its shape confuses them"""
+    out = []
+    for _ in range(n):
+        x = r.choice(["GlcNAc", "Man", "Gal", "Glc"])
+        a, b = r.sample(["Fuc", "Gal", "Man", "Glc", "Xyl", "Rha"], 2)
+        la, lb = r.choice("ab"), r.choice("ab")
+        lx = r.choice("ab")
+        pa, pb = r.sample([3, 4], 2) if x != "GlcNAc" else (3, 4)
+        if pb not in T.RES[a][1]:
+            pa, pb = pb, pa
+        if pb not in T.RES[a][1] or pa not in T.RES[x][1] or pb not in T.RES[x][1]:
+            continue
+        branched = T.Node(x, [(la, 1, pa, T.Node(a)), (lb, 1, pb, T.Node(b))])
+        linear = T.Node(x, [(la, 1, pa, T.Node(a, [(lb, 1, pb, T.Node(b))]))])
+        arms = [(lx, 1, 3, branched), (lx, 1, 6, linear)]
+        if r.random() < 0.5:
+            arms.reverse()
+            arms = [(arms[0][0], 1, 3, arms[0][3]), (arms[1][0], 1, 6, arms[1][3])]
+        out.append(T.Node(r.choice(["Gal", "Man", "Glc"]), arms))
+    return out
+
 
 def make_trees(r, tier):
     n = 60 if tier == "quick" else 600
@@ -68,6 +91,8 @@ def make_trees(r, tier):
             t = T.random_tree(r, size, names=["Gal", "Galf", "Ara", "Araf", "Xyl", "Xylf", "Glc", "Glcf", "Fruf", "Neu5Ac", "GlcN", "Kdo", "Rib", "Ribf"], p_branch=0.4)
         suffix = r.choice(["", "", " a", " b"]) if k != 3 else ""
         out.append((t, suffix))
+    for t in shape_twins(r, 6 if tier == "quick" else 60):
+        out.append((t, ""))
     # four substituents on a non-root residue, on the root, and nested (the 12-children production of the grammar)
     four = T.Node("Glc", [("b", 1, 4, T.Node("Man", [("a", 1, 2, T.Node("Gal")), ("a", 1, 3, T.Node("Fuc")), ("b", 1, 4, T.Node("Xyl")), ("a", 2, 6, T.Node("Neu5Ac"))]))])
     out.append((four, ""))
@@ -82,6 +107,13 @@ def make_trees(r, tier):
     # parents that use more than one ring-closure label themselves: anhydro roots, residues carrying cyclic groups
     for i in range(4 if tier == "quick" else 30):
         out.append((T.random_tree(r, r.randint(2, 5), root_names=["1,6-Anhydro-Glc", "1,6-Anhydro-Gal"], p_branch=0.5), ""))
+    # ... and bicyclic residues inside the tree, with one and two substituents in both writing orders
+    for anh in ("3,6-Anhydro-Gal", "3,6-Anhydro-Glc"):
+        for p1, p2 in ((2, 4), (4, 2)):
+            mid = T.Node(anh, [("b", 1, p1, T.Node("Gal")), ("b", 1, p2, T.Node("Glc"))])
+            out.append((T.Node("Gal", [("a", 1, 3, mid)]), ""))
+            out.append((T.Node("Glc", [("b", 1, 4, T.Node("Man", [("a", 1, 6, mid)]))]), ""))
+        out.append((T.Node("Gal", [("a", 1, 3, T.Node(anh, [("b", 1, 4, T.Node("Gal", [("a", 1, 3, T.Node(anh))]))]))]), ""))
     for tok in [x for x in ("Bz", "Bn", "Tr", "Ts", "Fmoc", "Coum", "Phthi", "Cbz", "Pyr") if x in MODS]:
         nm = f"Glc3{tok}"
         T.RES[nm] = (1, (2, 4, 6), (), "hexp-mod")
